@@ -174,6 +174,10 @@ func exploreOne(rep *kit.Report, sp kit.Spec, h handlerCfg, label string, maxSta
 	}
 	st, tr, capped := kit.ExploreSpec(sp, muts, kit.ExploreOpts{Setup: setup, MaxStates: maxStates,
 		BeforeMut: func(m *am.Machine) { oc = nil; qBefore = m.QueueTick() }}, func(t *kit.Trans) {
+		if t.Panic != "" {
+			rep.Violate("c01:panic-escaped", "mutation call panicked: "+t.Panic+" :: "+t.String(), replayT{t.Replay(), h})
+			return
+		}
 		if sc == nil {
 			sc = t.Mach.Schema()
 		}
